@@ -2,6 +2,7 @@
 //! stateright BFS over all operation sequences to a depth bound; observations in every state;
 //! oracle = a Vec with linear search.
 
+use vcommon::lit;
 use scale_info::{
     form::PortableForm, interner::Interner, Field, Path, PortableRegistryBuilder, Type, TypeDefComposite,
     TypeDefPrimitive, TypeDefSequence, TypeDefTuple, TypeParameter,
@@ -15,9 +16,9 @@ use vcommon::refscale::PType;
 
 pub const BUILDER_VALUES: usize = 11;
 
-fn prim(p: TypeDefPrimitive, path: &[&str], docs: &[&str], params: Vec<TypeParameter<PortableForm>>) -> PType {
-    Type::new(
-        Path::from_segments_unchecked(path.iter().map(|s| s.to_string())),
+fn prim(p: scale_info::TypeDef<PortableForm>, path: &[&str], docs: &[&str], params: Vec<TypeParameter<PortableForm>>) -> PType {
+    lit::ty(
+        path_of(path.iter().map(|s| s.to_string())),
         params,
         p,
         docs.iter().map(|s| s.to_string()).collect(),
@@ -28,34 +29,34 @@ fn prim(p: TypeDefPrimitive, path: &[&str], docs: &[&str], params: Vec<TypeParam
 fn builder_value(k: usize, model: &[PType]) -> PType {
     let len = model.len() as u32;
     match k {
-        0 => prim(TypeDefPrimitive::U8, &[], &[], vec![]),
-        1 => prim(TypeDefPrimitive::Bool, &[], &[], vec![]),
-        2 => Type::new(Path::default(), vec![], TypeDefSequence::new(0.into()), vec![]),
+        0 => prim(lit::primitive(scale_info::TypeDefPrimitive::U8), &[], &[], vec![]),
+        1 => prim(lit::primitive(scale_info::TypeDefPrimitive::Bool), &[], &[], vec![]),
+        2 => lit::ty(lit::path(vec![]), vec![], lit::sequence(0.into()), vec![]),
         // self-referential through next_type_id
-        3 => Type::new(
-            Path::from_segments_unchecked(["SelfRef".to_string()]),
+        3 => lit::ty(
+            path_of(["SelfRef".to_string()]),
             vec![],
-            TypeDefComposite::new(vec![Field::new(Some("me".into()), len.into(), None, vec![])]),
+            lit::composite(vec![lit::field(Some("me".into()), len.into(), None, vec![])]),
             vec![],
         ),
-        4 => Type::new(
-            Path::default(),
+        4 => lit::ty(
+            lit::path(vec![]),
             vec![],
-            TypeDefTuple::new_portable(if len == 0 { vec![] } else { vec![(len - 1).into()] }),
+            lit::tuple(if len == 0 { vec![] } else { vec![(len - 1).into()] }),
             vec![],
         ),
         // values that differ from value 0 in exactly one slot
-        5 => prim(TypeDefPrimitive::U8, &[], &["d"], vec![]),
-        6 => prim(TypeDefPrimitive::U8, &["p"], &[], vec![]),
-        7 => prim(TypeDefPrimitive::U8, &[], &[], vec![TypeParameter::new_portable("T".into(), None)]),
-        8 => prim(TypeDefPrimitive::U8, &[], &["d", ""], vec![]),
+        5 => prim(lit::primitive(scale_info::TypeDefPrimitive::U8), &[], &["d"], vec![]),
+        6 => prim(lit::primitive(scale_info::TypeDefPrimitive::U8), &["p"], &[], vec![]),
+        7 => prim(lit::primitive(scale_info::TypeDefPrimitive::U8), &[], &[], vec![lit::param("T".into(), None)]),
+        8 => prim(lit::primitive(scale_info::TypeDefPrimitive::U8), &[], &["d", ""], vec![]),
         // same non-empty path as value 6, different definition
-        10 => prim(TypeDefPrimitive::Bool, &["p"], &[], vec![]),
+        10 => prim(lit::primitive(scale_info::TypeDefPrimitive::Bool), &["p"], &[], vec![]),
         // forward reference two ahead of the id this value will get (dangling until two more values follow)
-        _ => Type::new(
-            Path::from_segments_unchecked(["Fwd".to_string()]),
+        _ => lit::ty(
+            path_of(["Fwd".to_string()]),
             vec![],
-            TypeDefComposite::new(vec![Field::new(Some("ahead".into()), (len + 2).into(), None, vec![]), Field::new(Some("next".into()), (len + 1).into(), None, vec![])]),
+            lit::composite(vec![lit::field(Some("ahead".into()), (len + 2).into(), None, vec![]), lit::field(Some("next".into()), (len + 1).into(), None, vec![])]),
             vec![],
         ),
     }
@@ -306,7 +307,7 @@ pub fn finish_of(hist: &[u8]) -> scale_info::PortableRegistry {
     for &k in hist {
         // a stand-in model of the right length makes builder_value use the announced id
         let announced = b.next_type_id() as usize;
-        let stand_in: Vec<PType> = vec![prim(TypeDefPrimitive::Bool, &["stand-in"], &[], vec![]); announced];
+        let stand_in: Vec<PType> = vec![prim(lit::primitive(scale_info::TypeDefPrimitive::Bool), &["stand-in"], &[], vec![]); announced];
         let v = builder_value(k as usize, &stand_in);
         b.register_type(v);
     }
@@ -344,7 +345,7 @@ pub fn long_tables(builder: bool, size: usize) -> (u64, u64, Vec<Violation>) {
             }
         };
         if builder {
-            let val = |v: u32| -> PType { prim(TypeDefPrimitive::U8, &[&format!("t{v:03}")], &[], vec![]) };
+            let val = |v: u32| -> PType { prim(lit::primitive(scale_info::TypeDefPrimitive::U8), &[&format!("t{v:03}")], &[], vec![]) };
             let mut b = PortableRegistryBuilder::new();
             for k in 0..=size {
                 states += 1;
@@ -422,4 +423,10 @@ pub fn long_tables(builder: bool, size: usize) -> (u64, u64, Vec<Violation>) {
         }
     }
     (states, transitions, viol)
+}
+
+/// a portable path built through the public field (no library constructor touches the segments)
+#[allow(dead_code)]
+fn path_of<I: IntoIterator<Item = String>>(segments: I) -> scale_info::Path<scale_info::form::PortableForm> {
+    scale_info::Path { segments: segments.into_iter().collect() }
 }
